@@ -244,6 +244,30 @@ def rank_value(pos, rep, i, nitems):
     return getattr(np, rep[3:])(pos)
 
 
+def contest_winner(case):
+    """The winner RECORDED in the Contest object.  The reported winner under audit is the `winner` ARGUMENT of
+    compute_raire_assertions (its docstring: "winner - reported winner of the contest"); the model and all oracles use
+    the argument.  case['cwinner']: absent/'same' = the argument, an index = that candidate, 'none' = None."""
+    cw = case.get("cwinner", "same")
+    if cw in (None, "same"):
+        return case["names"][case["winner"]]
+    if cw == "none":
+        return None
+    return case["names"][cw]
+
+
+def gen_cwinner(rng, n, winner, possible=None):
+    r = rng.random()
+    if r < 0.55:
+        return "same"
+    if r < 0.65:
+        return "none"
+    if r < 0.8 and possible and possible != [winner]:
+        return rng.choice(possible)          # the object records a possible true winner while another one is reported
+    others = [c for c in range(n) if c != winner]
+    return rng.choice(others) if others else "same"
+
+
 def build_inputs(case, rng=None):
     """Contest + cvrs exactly as a caller would build them (dict of ballot id -> {contest: {cand: position}})."""
     _, U, _ = R()
@@ -270,7 +294,7 @@ def build_inputs(case, rng=None):
     for j, ((bid, rec), b) in enumerate(zip(cvrs.items(), items2)):   # a second IRV contest with the same candidate ids on the same cards
         rec["c2"] = {names[c]: rank_value(pos, rep, j, len(items2)) for pos, c in enumerate(b)}
     order = [names[c] for c in case["order"]] if case.get("order") is not None else []
-    contest = U.Contest(CONTEST, list(names), names[case["winner"]], case["tot"], order=order)
+    contest = U.Contest(CONTEST, list(names), contest_winner(case), case["tot"], order=order)
     return contest, cvrs
 
 
@@ -346,7 +370,7 @@ def run_before(case, contest, cvrs):
             try:
                 Rm.compute_raire_assertions(contest, cv, names[b["winner"]], asn_fn(b["bp"], case["exact"]), False, agap=0)
             finally:
-                contest.tot_ballots, contest.winner = case["tot"], names[case["winner"]]
+                contest.tot_ballots, contest.winner = case["tot"], contest_winner(case)
                 if k == "same_dict":
                     cvrs.clear()
                     cvrs.update(saved)
@@ -530,7 +554,7 @@ def gen_case(rng, n=None, maxb=60):
     return gen_before(rng, {"n": n, "names": rng.choice(NAME_SCHEMES)(n), "types": types, "nocontest": nocontest, "tot": tot,
             "winner": winner, "bp": rng.random() < 0.5, "exact": rng.random() < 0.5, "order": order,
             "second": rng.random() < 0.1, "log": rng.random() < 0.03,
-            "rankrep": "int" if rng.random() < 0.5 else rng.choice(RANK_REPS[1:]), "tag": f"{style}/{wk}/hint-{ok}",
+            "rankrep": "int" if rng.random() < 0.5 else rng.choice(RANK_REPS[1:]), "cwinner": gen_cwinner(rng, n, winner, winners), "tag": f"{style}/{wk}/hint-{ok}",
             "possible_winners": winners})
 
 
@@ -614,7 +638,7 @@ def large_case(rng):
     return {"n": n, "names": rng.choice(NAME_SCHEMES)(n), "types": tl, "nocontest": 0,
             "tot": nb + (rng.randint(1, 100) if rng.random() < 0.3 else 0), "winner": winner,
             "bp": rng.random() < 0.5, "exact": rng.random() < 0.5, "order": hint, "second": False, "log": False,
-            "rankrep": rng.choice(RANK_REPS),
+            "rankrep": rng.choice(RANK_REPS), "cwinner": gen_cwinner(rng, n, winner, winners),
             "tag": f"large/{'right' if winners == [winner] else 'tied' if winner in winners else 'wrong'}/hint-{'true' if hint else 'none'}",
             "possible_winners": winners}
 
@@ -640,7 +664,8 @@ def exhaustive_cases(max_c=3, max_b=4, winners="all", dfuns=(False, True), hints
                             k = len(cases)
                             scheme = NAME_SCHEMES[0] if k % 3 else NAME_SCHEMES[AWKWARD[(k // 3) % len(AWKWARD)]]
                             rep = RANK_REPS[(k // 4) % len(RANK_REPS)] if k % 4 == 1 else "int"
-                            cases.append({"n": n, "names": scheme(n), "types": tl, "nocontest": 0, "tot": nb, "rankrep": rep,
+                            cw = "same" if k % 5 else ("none" if (k // 5) % 3 == 0 else (w + 1 + (k // 15) % (n - 1)) % n)
+                            cases.append({"n": n, "names": scheme(n), "types": tl, "nocontest": 0, "tot": nb, "rankrep": rep, "cwinner": cw,
                                           "winner": w, "bp": bp, "exact": True, "order": h(n) if h else None,
                                           "second": False, "tag": "exhaustive"})
     return cases
@@ -733,7 +758,7 @@ def case_json(case):
             "tot_ballots": case["tot"], "winner_index": case["winner"], "asn_func": ("bp" if case["bp"] else "cp") +
             ("_fraction" if case["exact"] else "_estimate"), "order_hint": case.get("order"),
             "second_call_on_same_objects": case.get("second", False), "log": case.get("log", False), "tag": case.get("tag"),
-            "rank_representation": case.get("rankrep") or "int",
+            "rank_representation": case.get("rankrep") or "int", "winner_recorded_in_Contest_object": case.get("cwinner", "same"),
             "calls_before_in_same_process": C.jsonable(case.get("before")), "second_contest_c2_on_same_cards": C.jsonable(case.get("c2types")),
             "cases_run_earlier_in_this_process": o.get("position_in_process"),
             "impl_output": C.jsonable(o["out"]), "impl_exc": o["exc"]}
@@ -748,7 +773,7 @@ def case_from_json(j):
             "nocontest": j.get("cvrs_without_contest", 0), "tot": j["tot_ballots"], "winner": j["winner_index"],
             "bp": fn.startswith("bp"), "exact": fn.endswith("_fraction"), "order": j.get("order_hint"),
             "second": j.get("second_call_on_same_objects", False), "log": j.get("log", False),
-            "rankrep": j.get("rank_representation") or "int",
+            "rankrep": j.get("rank_representation") or "int", "cwinner": j.get("winner_recorded_in_Contest_object", "same"),
             "before": [dict(b, types=[(tuple(x), k) for x, k in b["types"]]) if "types" in b else b
                        for b in (j.get("calls_before_in_same_process") or [])] or None,
             "c2types": [(tuple(x), k) for x, k in (j.get("second_contest_c2_on_same_cards") or [])] or None, "tag": "replay/" + "/".join((j.get("tag") or "").split("/")[1:])}
@@ -881,6 +906,8 @@ def stats(cases):
         if c.get("log"):
             inc("log=True")
         inc("ranks as " + (c.get("rankrep") or "int"))
+        if c.get("cwinner", "same") != "same":
+            inc("Contest object records another winner" if c["cwinner"] != "none" else "Contest object records winner None")
         for b in c.get("before") or []:
             inc("preceded in-process by " + b["kind"])
         if c.get("c2types"):
